@@ -2,6 +2,7 @@
   Driver for the blocking-call model.
     run <api> <remote|local> <schedule>     schedule: string over c (caller step) / l (loss step), or "-"
         → pc=<start|waiting|done> fin=<0|1> prompt=<0|1>
+    mrun <api> <remote|local> <all|one> <n> <c0,c1,l,…>   → fin=<0|1> prompt=<one 0/1 per caller>
     proxy <fixed|old> <size> <have> <reads: n,n,…|-> <fuel>   → some <n> | none
   <api> is a row name of apiTable, or old:accept / old:ensure_session
 -/
@@ -29,6 +30,20 @@ def stepLine (line : String) : String :=
       let s := run a l init sc
       s!"pc={showPc s.pc} fin={b01 (lossFinished a l s)} prompt={b01 (returnsPromptly a l s)}"
     | _, _, _ => "bad-op"
+  | ["mrun", api, loss, mode, n, sch] =>
+    -- many callers: schedule tokens c<i> / l separated by commas; mode all|one (notify_all / notify)
+    let toks := if sch == "-" then [] else sch.splitOn ","
+    let ps : Option (List MTid) := toks.mapM fun t =>
+      if t == "l" then some MTid.loss
+      else if t.startsWith "c" then (t.drop 1).toNat?.map MTid.caller else none
+    match findApi api, (if loss == "remote" then some Loss.remote else if loss == "local" then some Loss.localClose else none),
+          (if mode == "all" then some true else if mode == "one" then some false else none), n.toNat?, ps with
+    | some a, some l, some al, some k, some sc =>
+      let m := mrun a l al (minit k) sc
+      let fin := decide ((a.prog l).length ≤ m.lossPc)
+      let outs := m.cs.map fun c => b01 (returnsPromptly a l (m.view c))
+      s!"fin={b01 fin} prompt={String.intercalate "" outs}"
+    | _, _, _, _, _ => "bad-op"
   | ["proxy", mode, size, have_, reads, fuel] =>
     let rs : Option (List Nat) := if reads == "-" then some [] else (reads.splitOn ",").mapM (·.toNat?)
     match (if mode == "fixed" then some true else if mode == "old" then some false else none),
